@@ -127,6 +127,8 @@ def run(tier, seed, res, lean):
     from .. import suite_hash as _sh
     for p in [p for i in range(3 if tier == 'quick' else 20) for p in _sh.run_default_keywords(seed * 5 + i) if p['kind'] in ('collision', 'error')][:2]:
         res.violations.append(Violation('c05-default-keywords', p['msg'][:400], {'suite': 'S-HASH/default-keywords', **p}))
+    for p in _sh.run_byvalue_arrays(seed)[:2]:
+        res.violations.append(Violation('c05-by-value-arrays', p['msg'][:400], {'suite': 'S-HASH/by-value-arrays', **p}))
     from .. import suite_external
     ext = pmap(suite_external.run_shard, [(seed * 71 + i + 1, 4 if tier == 'quick' else 30) for i in range(16)])
     for p in [p for o in ext for p in o[1] if p.get('kind') == 'collision'][:3]:
